@@ -1,3 +1,135 @@
-import Chiritori.Spec.Holds
+import Chiritori.Props.C12
+import Chiritori.Lemmas.FormatMerge
+/-
+  C14 — Whitespace changes are confined to the borders of removals.
+
+  Full statement: `Statement` (the trimmed maximal stretches of the source outside the ready extents, cut line by
+  line inside unwrapped bodies, occur verbatim and in order in the output: `Spec.c14Holds`).
+  Proved (for every text and every list of removed positions):
+  * `only_whitespace`: tidying deletes nothing but spaces, tabs and line breaks (`format_wsSub`);
+  * `ranges_local`: every range `format` computes is either
+      - a *seam range*: one contiguous run of whitespace that contains the removed position it belongs to
+        (so it lies in the trailing whitespace of the stretch before the seam and the leading whitespace of the
+        stretch behind it), or
+      - a *block range*: part of the run of blanks at the beginning of a line behind the head seam of an
+        unwrap pair, of the shape given in C12;
+  * `merged_subset`: what is finally deleted is covered by those ranges.
+  Not proved yet: the step from this characterisation to `Spec.c14Holds` (it needs the correspondence between
+  positions of the text after removal and stretches of the source).
+-/
 namespace Chiritori.Props.C14
+open Chiritori Chiritori.Spec
+
+def Statement : Prop :=
+  ∀ (src ds de : List Char) (cfg : Cfg) (out : List Char), ds ≠ [] → de ≠ [] →
+    clean src ds de cfg = .ok out → c14Holds src ds de cfg out = true
+
+theorem only_whitespace (s : List Char) (pos : List (Nat × Option Nat)) (out : Bytes)
+    (h : format (bytesOf s) pos = .ok out) : WsSub (bytesOf s) out := (format_wsSub s pos out h).1
+
+/-- every range of the collection loop with the position it is anchored at -/
+theorem ranges_local (s : List Char) (all ps : List (Nat × Option Nat)) (rs bs : List (Nat × Nat))
+    (h : formatCollect (bytesOf s) all ps = .ok (rs, bs)) :
+    (∀ r ∈ rs, ∃ p ∈ ps, GoodRange s p.1 r) ∧
+    (∀ r ∈ bs, ∃ p ∈ ps, ∃ q, r ∈ fmtBlockIndent (bytesOf s) p.1 q) := by
+  induction ps generalizing rs bs with
+  | nil =>
+    simp only [formatCollect] at h
+    injection h with h
+    injection h with h1 h2
+    subst h1; subst h2
+    simp
+  | cons p ps ih =>
+    obtain ⟨pos, pair⟩ := p
+    simp only [formatCollect] at h
+    cases hfb : formatBlock (bytesOf s) pos seamFormatters (pos, pos) with
+    | error e => rw [hfb] at h; simp at h
+    | ok range =>
+      rw [hfb] at h
+      simp only at h
+      obtain ⟨_, g⟩ := formatBlock_good s pos range hfb
+      split at h
+      · simp at h
+      · rename_i blk hB
+        have hblk : ∀ r ∈ blk, ∃ q, r ∈ fmtBlockIndent (bytesOf s) pos q := by
+          cases pair with
+          | none => simp at hB; subst hB; simp
+          | some i =>
+            simp only at hB
+            cases hai : all[i]? with
+            | none => rw [hai] at hB; simp at hB
+            | some pp =>
+              rw [hai] at hB
+              obtain ⟨pairStart, q⟩ := pp
+              simp only at hB
+              split at hB
+              · injection hB with hB; subst hB; intro r hr; exact ⟨pairStart, hr⟩
+              · injection hB with hB; subst hB; simp
+        cases hrest : formatCollect (bytesOf s) all ps with
+        | error e => rw [hrest] at h; simp at h
+        | ok rb =>
+          rw [hrest] at h
+          obtain ⟨rs', bs'⟩ := rb
+          simp only at h
+          injection h with h
+          injection h with h1 h2
+          subst h1; subst h2
+          obtain ⟨i1, i2⟩ := ih rs' bs' hrest
+          refine ⟨?_, ?_⟩
+          · intro r hr
+            rcases List.mem_cons.mp hr with hr | hr
+            · subst hr; exact ⟨(pos, pair), by simp, g⟩
+            · obtain ⟨p, hp, hg⟩ := i1 r hr
+              exact ⟨p, by simp [hp], hg⟩
+          · intro r hr
+            rcases List.mem_append.mp hr with hr | hr
+            · obtain ⟨q, hq⟩ := hblk r hr
+              exact ⟨(pos, pair), by simp, q, hq⟩
+            · obtain ⟨p, hp, hq⟩ := i2 r hr
+              exact ⟨p, by simp [hp], hq⟩
+
+/-- a seam range is one run of whitespace around its seam -/
+theorem seam_range_run (s : List Char) (pos : Nat) (r : Nat × Nat) (g : GoodRange s pos r) :
+    r.1 ≤ pos ∧ pos ≤ r.2 ∧ ∀ i, r.1 ≤ i → i < r.2 → ∃ x, (bytesOf s)[i]? = some x ∧ isWsByte x :=
+  ⟨g.le1, g.le2, g.ws⟩
+
+/-- a block range lies in the blanks at the beginning of a line (shape of C12) -/
+theorem block_range_line (b : Bytes) (startPos endPos : Nat) (r : Nat × Nat) (h : r ∈ fmtBlockIndent b startPos endPos) :
+    ∃ ls ip, findNextChar b ls = some ip ∧ ls ≤ r.1 ∧ r.2 ≤ ip := by
+  obtain ⟨cur, ls, ip, _, _, _, h4, h5, _⟩ := C12.fmtBlockIndent_shape b startPos endPos r h
+  refine ⟨ls, ip, h4, ?_, ?_⟩
+  · rw [h5]; simp only [C12.lineRange]
+    obtain ⟨_, c1, _, _, _⟩ := findNextChar_some b ls ip h4
+    omega
+  · rw [h5]; simp only [C12.lineRange]; omega
+
+/-- every index finally deleted lies in one of the collected ranges -/
+theorem mergeOverlappedGo_subset (xs : List Rng') : ∀ (cur : Rng') (i : Nat),
+    inAny (mergeOverlappedGo cur xs) i = true → inAny (cur :: xs) i = true := by
+  induction xs with
+  | nil => intro cur i h; simpa [mergeOverlappedGo] using h
+  | cons x xs ih =>
+    intro cur i h
+    simp only [mergeOverlappedGo] at h
+    split at h
+    · rename_i hov
+      have := ih _ i h
+      simp only [inAny, List.any_cons, Rng.contains, Bool.or_eq_true, Bool.and_eq_true, decide_eq_true_eq] at this ⊢
+      rcases this with ⟨h1, h2⟩ | h3
+      · by_cases hc : i < cur.2
+        · exact Or.inl ⟨h1, hc⟩
+        · exact Or.inr (Or.inl ⟨by omega, by omega⟩)
+      · exact Or.inr (Or.inr h3)
+    · simp only [inAny, List.any_cons, Bool.or_eq_true] at h ⊢
+      rcases h with h | h
+      · exact Or.inl h
+      · have := ih x i (by simpa [inAny] using h)
+        simp only [inAny, List.any_cons, Bool.or_eq_true] at this
+        exact Or.inr this
+
+theorem merged_subset (l : List Rng') (i : Nat) (h : inAny (mergeOverlapped l) i = true) : inAny l i = true := by
+  cases l with
+  | nil => simpa [mergeOverlapped] using h
+  | cons r rs => exact mergeOverlappedGo_subset rs r i h
+
 end Chiritori.Props.C14
